@@ -375,7 +375,26 @@ func genHostsLine(rng *rand.Rand) string {
 	if rng.IntN(12) == 0 {
 		sb.WriteString("\r")
 	}
-	return sb.String()
+	line := sb.String()
+	if rng.IntN(12) == 0 {
+		// a space-like rune that is NOT a hosts(5) separator (byte-order mark, zero-width and
+		// no-break spaces, line separators, vertical tab, form feed, NUL) at a field boundary:
+		// the start or the end of the line, next to a separator, or as the whole line
+		junk := pick(rng, "\ufeff", "\ufeff", "\u200b", "\u00a0", "\u3000", "\u0085", "\u2028", "\v", "\f", "\x00", "\u1680", "\u202f")
+		var at []int
+		at = append(at, 0, 0, len(line))
+		for i := 0; i < len(line); i++ {
+			if line[i] == ' ' || line[i] == '\t' || line[i] == '#' {
+				at = append(at, i, i+1)
+			}
+		}
+		k := at[rng.IntN(len(at))]
+		line = line[:k] + junk + line[k:]
+		if rng.IntN(8) == 0 {
+			line = pick(rng, junk, junk+"# c", "\t"+junk+" \t", junk+" 1.2.3.4 a", " "+junk)
+		}
+	}
+	return line
 }
 
 func c07UnmarshalCase(pre, line string) string {
